@@ -36,6 +36,8 @@ CHECKS = {
          "List order fixed by construction of names; bounds 3-4 contents, <=4 edits, <=2 faults.", "DESIGN.md 3 C12"),
  "C13": ("spec/Engine.tla models the controller engine at the grain of its lock-protected segments (StartWatches and the collector read, release every lock, and act later); TLC explores all interleavings of concurrent callers; each schedule is replayed deterministically on the real ControllerEngine/StoppableSource/InformerTrackingCache/watch GC by pausing the real goroutines inside the fakes; plus truly concurrent stress and a race-detector run; TLC judges OneWatch, StopClean, GcOnlyUnused, Reestablish, RunningExact, NoDeadlock.",
          "Interleavings inside a lock-protected segment cannot be forced without hooks and are only reached by the stress runs; Go memory-model races are covered by go build -race, not by TLA+.", "DESIGN.md 3 C13"),
+ "C15": ("spec/PkgRevision.tla models the revision reconciler's content pipeline (cache hit/miss, image layouts, tee of the stream into the cache with read/store/delete faults at document and byte positions, parser, linters, version constraints, verification gate, establish) over several reconciles sharing the cache and crashes; behaviours are replayed on the real revision.Reconciler + ImageBackend + FsPackageCache (fault-injecting fs) + parser/linters + signature reconciler with images built by the real xpkg builder; TLC judges Exact, CacheSound, Gate.*, RoundTrip on what the recording establisher was handed.",
+         "Objects are tokens (kind, name, content digest); YAML/gzip/OCI byte fidelity is exercised, not modelled; establishing itself is C16's subject.", "DESIGN.md 3 C15"),
  "C16": ("spec/Establisher.tla models Establish (validate phase then establish phase, one action per call) and ReleaseObjects over upgrade/rollback sequences, pre-existing objects (absent, uncontrolled, controlled by the previous revision or by another package) and scripted rejections; behaviours are replayed on the real revision reconciler + APIEstablisher (sequential with fault sweep, and 4 workers under a seeded gate); TLC judges AllOrNothing, OnlyActiveCreates, InactivePlain, OneController, ReleaseKeeps, PkgOwner, ForeignUntouched.",
          "'Cannot be taken over' is judged on the cluster state when Establish starts; a transient API fault after full validation may leave a prefix written (interpretation in the spec).", "DESIGN.md 3 C16"),
  "C17": ("spec/Deps.tla holds the reference semantics (reachability, cycles, implied nodes, semantic-version order, constraint satisfaction, MaxSat/MinUpgrade/MaxDowngrade, Satisfied); TLC enumerates all digraphs on <=3 (4) nodes, tag lists and constraint shapes; each vector runs the real MapDag/MapUpgradingDag, the resolver Reconciler end-to-end and PackageDependencyManager.Resolve; TLC judges the outputs.",
